@@ -15,7 +15,18 @@ fn run_on(c: &Circuit, n: usize, v: &[Complex<f64>]) -> Result<State, quant_iron
     c.execute(&State { state_vector: v.to_vec(), num_qubits: n })
 }
 
+/// optional "pool": run inside a rayon pool of that size; optional "ocl": lower the OpenCL size threshold (no effect without `gpu`)
 pub fn run_qft(case: &Value) -> Value {
+    if let Some(o) = case.get("ocl").map(vu) { quant_iron::verif_hooks::OPENCL_THRESHOLD.set(o); }
+    let out = match case.get("pool").map(vu) {
+        Some(p) => rayon::ThreadPoolBuilder::new().num_threads(p).build().unwrap().install(|| run_qft_inner(case)),
+        None => run_qft_inner(case),
+    };
+    quant_iron::verif_hooks::OPENCL_THRESHOLD.set(15);
+    out
+}
+
+fn run_qft_inner(case: &Value) -> Value {
     let n = vu(&case["n"]);
     let qs = vus(&case["qs"]);
     let inverse = case["inverse"].as_bool().unwrap_or(false);
